@@ -133,7 +133,60 @@ pub fn run(seed: u64, count: usize) -> Vec<String> {
         ));
     }
     reentrant(&mut out);
+    shutdown(&mut out);
     out
+}
+
+// ---- serialization and deserialization from a thread-local destructor that runs after the crate's
+// own thread-local storage is gone (C20: transparent there too; C13: no panic) ----
+
+struct LateSer(std::cell::RefCell<Option<Box<dyn FnOnce()>>>);
+impl Drop for LateSer {
+    fn drop(&mut self) {
+        if let Some(f) = self.0.borrow_mut().take() {
+            f();
+        }
+    }
+}
+thread_local! {
+    static LATE_SER: LateSer = LateSer(std::cell::RefCell::new(None));
+}
+
+fn shutdown(out: &mut Vec<String>) {
+    let res: Arc<std::sync::Mutex<Vec<String>>> = Arc::new(std::sync::Mutex::new(vec![]));
+    let r2 = Arc::clone(&res);
+    std::thread::spawn(move || {
+        let shared: Arc<ArcSwapAny<Arc<V>>> = Arc::new(ArcSwapAny::from(Arc::new(V::Pair(Box::new(V::U(7)), Box::new(V::S("x".into()))))));
+        let sh2 = Arc::clone(&shared);
+        // one reference is never given back: the container is not destroyed on this thread (a
+        // second panic while the first one unwinds would abort the process)
+        std::mem::forget(Arc::clone(&shared));
+        // registered before the crate is used on this thread: destroyed after the crate's own
+        LATE_SER.with(|l| {
+            *l.0.borrow_mut() = Some(Box::new(move || {
+                let r = std::panic::catch_unwind(std::panic::AssertUnwindSafe(move || {
+                    let sh2 = sh2; // dropped in here too (the last use of the container on this thread)
+                    let a = serde_json::to_string(&*sh2).unwrap();
+                    let back: ArcSwapAny<Arc<Foo>> = serde_json::from_str("{\"field0\":5,\"field1\":\"FOO\",\"field2\":null}").unwrap();
+                    let b = serde_json::to_string(&back).unwrap();
+                    format!("{}|{}", a, b)
+                }));
+                let line = match r {
+                    Ok(s) => format!("shutdown ok=1 json={}", s),
+                    Err(p) => format!(
+                        "shutdown ok=0 panic={}",
+                        p.downcast_ref::<String>().cloned().or_else(|| p.downcast_ref::<&str>().map(|s| s.to_string())).unwrap_or_default()
+                    ),
+                };
+                r2.lock().unwrap().push(line);
+            }))
+        });
+        // the crate's thread-local comes to life here
+        let _ = shared.load();
+    })
+    .join()
+    .unwrap();
+    out.extend(res.lock().unwrap().drain(..));
 }
 
 // ---- a writer runs in the middle of a serialization (C20: the token stream is that of one snapshot,
